@@ -3,7 +3,9 @@
 (* explained by Wire.tla.                                                                            *)
 (*   [ev |-> "enc", type, v, ok, bytes, decoded]   value v was encoded (ok: accepted), the bytes     *)
 (*                                                 written, and what decoding those bytes gave       *)
-(*   [ev |-> "dec", type, bytes, ok, v, consumed]  an arbitrary byte string was decoded              *)
+(*   [ev |-> "dec", type, bytes, ok, v, consumed, inside]  an arbitrary byte string was decoded;     *)
+(*                                                 inside: after an error the decoder still stands   *)
+(*                                                 inside its buffer (Sources: 0 <= pos <= Len)      *)
 (*   [ev |-> "bigenc", type, n, width, ok, head, total, same, consumed]  a container of n elements   *)
 (*                                                 of fixed width: the bytes in front of the first   *)
 (*                                                 element, the total length, the round trip         *)
@@ -31,6 +33,7 @@ EncExplained(e) ==
 DecExplained(e) ==
   LET t == TypeOf(e.type)  r == Dec(t, e.bytes, 1) IN
   /\ r.ok = e.ok
+  /\ e.inside
   /\ e.ok => (r.pos - 1 = e.consumed /\ (e.type = "tagged" \/ SameVal(t, r.v, e.v)))
 
 \* a container is its element count as a size, then the elements: Wire!Enc for "seq" / "dict" / "string", stated on the
